@@ -1,6 +1,7 @@
 // Correspondence harness for C12 / C18: operation sequences over a forest of four named Values.
 //   valseq [@<roots to print>] <op> ; <op> ; ... -> per step "<ret>#<root0>#<root1>#<root2>#<root3>", steps joined by '|'
 //   valview <op> ; ... ; grp D S key -> "<ret>/<abstract view of the grouped result>" of the final GroupBy
+//   valhash <units>              -> StringUtils::Hash of the key
 //   valled <op> ; <op> ; ...     -> "ok"; no dumps, the roots are destroyed before the line is emitted, so with
 //                                   -DVERIF_LEDGER the trace appended by vh::emit is the operations' own (C16)
 // A root prints as "<deep dump>@<getter summary>"; the format is the one of lean/Qentem/Driver/Value.lean.
@@ -854,6 +855,18 @@ int main() {
     std::string line;
     while (vh::read_line(line)) {
         auto toks = vh::split(line);
+        if (toks.size() == 2 && toks[0] == "valhash") {
+            // StringUtils::Hash of a key (the generators assert that their colliding member names still collide)
+            std::vector<uint64_t> k;
+            if (!parse_units(toks[1], k)) {
+                vh::emit("bad-op");
+                continue;
+            }
+            vh::ExactBuf<char> kb(k);
+            const char        *kp = kb.p;
+            vh::emit(num(StringUtils::Hash(kp, SizeT(kb.n))));
+            continue;
+        }
         if (toks.empty() || (toks[0] != "valseq" && toks[0] != "valview" && toks[0] != "valled")) {
             vh::emit("bad-op");
             continue;
